@@ -214,6 +214,21 @@ def check_case(ref, s):
     else:
         want = {"type": t, "fields": list(d.items()), "str": string, "bool": True, "len": len(d)}
         cls = "typed:" + t
+    if o == want and ":" not in s and t is not None:
+        # typing must not depend on Sid objects of the same string built before (a Sid object and its bare string
+        # are both legal arguments of Sid(); C13 explores histories in general, this is the C01 clause under them)
+        others = [t2 for t2 in ref.all_types(s) if t2 != t]
+        if others:
+            from spil import Sid
+            from spil.sid.core.sid_factory import sid_to_sid
+            for t2 in others:
+                sid_to_sid.cache_clear()          # cold: the Sid object is asked first, the bare string afterwards
+                Sid(Sid(t2 + ":" + s))
+                o2 = observe(s)
+                if o2 != want:
+                    out.append(dict(signature="plain-string-typed-by-an-earlier-forced-sid-object", observed=[t2, o2], expected=want))
+                    break
+            sid_to_sid.cache_clear()
     if o != want:
         if o["bool"] and t is None and s.endswith("\n") and ref.natural(string[:-1])[0]:
             sig = "typed-but-last-segment-rejected/trailing-newline"
